@@ -474,6 +474,7 @@ class Summary(object):
         out = self.block(self.func.body, env, True, fr)
         self.returns = list(fr.returns)
         self.falls = out
+        self.final_env = env
 
     # ------------------------------------------------------------------ helpers
     def P(self, i):
@@ -1557,3 +1558,25 @@ def depends_negatively(cond, pattern):
     f0 = assign(cond, dict((a, False) for a in names))
     f1 = assign(cond, dict((a, True) for a in names))
     return implies(f1, f0) and not equiv(f0, f1)
+
+
+def list_items(summ, name=None):
+    """(condition, key text or None, value node, whole node) for every element put into a list the function builds in place;
+    `name` defaults to the only such list"""
+    lists = dict((k, v) for k, v in summ.final_env.items() if isinstance(v, ListVal))
+    if name is None:
+        if len(lists) != 1:
+            raise AnalysisError('%s: expected one list built in place, found %s' % (summ.qual, sorted(lists)))
+        name = list(lists)[0]
+    if name not in lists:
+        raise AnalysisError('%s: no list `%s` built in place' % (summ.qual, name))
+    out = []
+    for cond, n in lists[name].items:
+        key = None
+        val = n
+        if isinstance(n, ast.Tuple) and len(n.elts) == 2:
+            ok, k = summ.fold(n.elts[0], _Frame(summ.func, getattr(summ.func, '_module', summ.mod), ()))
+            key = k if ok else _unparse(n.elts[0])
+            val = n.elts[1]
+        out.append((cond, key, val, n))
+    return out
